@@ -176,6 +176,7 @@ func c06(r *core.Report) {
 	lookupFolding(r, "C06.lookup")
 	requiredExemption(r, "C06.reqexempt")
 	c06RawHeader(r)
+	c06ExactFirst(r)
 	c06Streams(r)
 	p := r.Prog
 	pk := p.Pkg("openapi3filter")
@@ -1114,5 +1115,46 @@ func c06RawHeader(r *core.Report) {
 				core.Fail("%s: no Content.Get call", fname)
 			}
 		}
+	})
+}
+
+// c06ExactFirst: the first level of Content.Get's precedence is the string as given.
+func c06ExactFirst(r *core.Report) {
+	p := r.Prog
+	info := p.Pkg("openapi3").TypesInfo
+	r.RunRule("C06.exactfirst", "the exact media type string is tried first, untouched: in Content.Get the first lookup in the map that can return is indexed with the parameter itself, before any assignment to the parameter or a value derived from it (a lookup string that was normalised first — whitespace around `;` removed — no longer finds a key that was declared with that whitespace, and a less specific declaration with another schema is used)", 1, func() {
+		fd := p.DeclOf("openapi3", "Content.Get")
+		prm := info.ObjectOf(fd.Type.Params.List[0].Names[0])
+		firstLookup, firstAssign := token.NoPos, token.NoPos
+		derived := false
+		ast.Inspect(fd.Body, func(nd ast.Node) bool {
+			switch x := nd.(type) {
+			case *ast.IndexExpr:
+				if _, isMap := info.TypeOf(x.X).Underlying().(*types.Map); !isMap {
+					return true
+				}
+				if _, isConst := core.ConstStr(info, x.Index); isConst {
+					return true
+				}
+				if firstLookup == token.NoPos {
+					firstLookup = x.Pos()
+					if id, ok := ast.Unparen(x.Index).(*ast.Ident); !ok || info.ObjectOf(id) != prm {
+						derived = true
+					}
+				}
+			case *ast.AssignStmt:
+				for _, l := range x.Lhs {
+					if id, ok := ast.Unparen(l).(*ast.Ident); ok && info.ObjectOf(id) == prm && firstAssign == token.NoPos {
+						firstAssign = x.Pos()
+					}
+				}
+			}
+			return true
+		})
+		if firstLookup == token.NoPos {
+			core.Fail("Content.Get: no lookup by a non-constant key")
+		}
+		ok := !derived && (firstAssign == token.NoPos || firstLookup < firstAssign)
+		r.Check(ok, "exactfirst:Content.Get", p.Pos(firstLookup), "first lookup uses the string as given", "Content.Get does not try the media type string as it was given first: the string is changed (or replaced by a derived one) before the first lookup, so a media type declared with exactly that spelling is not found by its own name")
 	})
 }
